@@ -177,47 +177,48 @@ def DOp.matvec : DOp R → Bool → Vec R → Vec R
   | .prod a b, xc, x => a.matvec (b.cplx || xc) (b.matvec xc x)
   | .scaled a alpha _, xc, x => vsmul alpha (a.matvec xc x)
 
-/-- `a + b` on discrete operators -/
+/-- `a + b` on discrete operators: Sparse + Sparse and Dense + Dense collapse to one stored matrix, everything else is
+a lazy `_SumDiscreteOperator` (which checks the shapes) -/
 def dAdd (a b : DOp R) : Except Err (DOp R) :=
   if a.rows = b.rows ∧ a.cols = b.cols then
-    match a, b with
-    | .leaf .sparse c1 r n M1, .leaf .sparse c2 _ _ M2 => .ok (.leaf .sparse (c1 || c2) r n (madd M1 M2))
-    | .leaf .dense c1 r n M1, .leaf .dense c2 _ _ M2 => .ok (.leaf .dense (c1 || c2) r n (madd M1 M2))
-    | a, b => .ok (.sum a b)
+    match a.conc, b.conc with
+    | some .sparse, some .sparse => .ok (.leaf .sparse (a.cplx || b.cplx) a.rows a.cols (madd a.toDense b.toDense))
+    | some .dense, some .dense => .ok (.leaf .dense (a.cplx || b.cplx) a.rows a.cols (madd a.toDense b.toDense))
+    | _, _ => .ok (.sum a b)
   else .error .value
 
 /-- `a * b` / `a @ b` on discrete operators -/
 def dMul (a b : DOp R) : Except Err (DOp R) :=
   if a.cols = b.rows then
-    match a, b with
-    | .leaf .sparse c1 r _ M1, .leaf .sparse c2 _ n M2 => .ok (.leaf .sparse (c1 || c2) r n (mmul M1 M2 n))
-    | .leaf .dense c1 r _ M1, .leaf .dense c2 _ n M2 => .ok (.leaf .dense (c1 || c2) r n (mmul M1 M2 n))
-    | a, b => .ok (.prod a b)
+    match a.conc, b.conc with
+    | some .sparse, some .sparse => .ok (.leaf .sparse (a.cplx || b.cplx) a.rows b.cols (mmul a.toDense b.toDense b.cols))
+    | some .dense, some .dense => .ok (.leaf .dense (a.cplx || b.cplx) a.rows b.cols (mmul a.toDense b.toDense b.cols))
+    | _, _ => .ok (.prod a b)
   else .error .value
 
 /-- `alpha * a` / `a * alpha` -/
-def dScale (alpha : R) (ac : Bool) : DOp R → DOp R
-  | .leaf .sparse c r n M => .leaf .sparse (c || ac) r n (msmul alpha M)
-  | .leaf .dense c r n M => .leaf .dense (c || ac) r n (msmul alpha M)
-  | a => .scaled a alpha ac
+def dScale (alpha : R) (ac : Bool) (a : DOp R) : DOp R :=
+  match a.conc with
+  | some k => .leaf k (a.cplx || ac) a.rows a.cols (msmul alpha a.toDense)
+  | none => .scaled a alpha ac
 
 /-- `-a` -/
-def dNeg : DOp R → DOp R
-  | .leaf .sparse c r n M => .leaf .sparse c r n (msmul (-1) M)
-  | .leaf .dense c r n M => .leaf .dense c r n (msmul (-1) M)
-  | a => .scaled a (-1) false
+def dNeg (a : DOp R) : DOp R :=
+  match a.conc with
+  | some k => .leaf k a.cplx a.rows a.cols (msmul (-1) a.toDense)
+  | none => .scaled a (-1) false
 
 /-- `.transpose()`; only Sparse and Dense implement `_transpose` -/
-def dTranspose : DOp R → Except Err (DOp R)
-  | .leaf .sparse c r n M => .ok (.leaf .sparse c n r (transposeM M n))
-  | .leaf .dense c r n M => .ok (.leaf .dense c n r (transposeM M n))
-  | _ => .error .notImpl
+def dTranspose (a : DOp R) : Except Err (DOp R) :=
+  match a.conc with
+  | some k => .ok (.leaf k a.cplx a.cols a.rows (transposeM a.toDense a.cols))
+  | none => .error .notImpl
 
 /-- `.adjoint()` -/
-def dAdjoint : DOp R → Except Err (DOp R)
-  | .leaf .sparse c r n M => .ok (.leaf .sparse c n r ((transposeM M n).map (·.map CParts.conj)))
-  | .leaf .dense c r n M => .ok (.leaf .dense c n r ((transposeM M n).map (·.map CParts.conj)))
-  | _ => .error .notImpl
+def dAdjoint (a : DOp R) : Except Err (DOp R) :=
+  match a.conc with
+  | some k => .ok (.leaf k a.cplx a.cols a.rows ((transposeM a.toDense a.cols).map (·.map CParts.conj)))
+  | none => .error .notImpl
 
 end DOps
 
